@@ -14,7 +14,7 @@ import time
 # facts
 # ----------------------------------------------------------------------------
 
-CHILD_SKIP = {"_p", "_b", "_role", "_top"}
+CHILD_SKIP = {"_p", "_b", "_role", "_top", "_ref"}
 
 
 class Facts:
@@ -37,6 +37,9 @@ class Facts:
         for b in self.bodies:
             self._index(b)
         self._callgraph = None
+        self.inlined = []
+        if not os.environ.get("VERIF_NO_INLINE"):
+            self._inline_new_helpers()
 
     # -- indexing ------------------------------------------------------------
     def _index(self, b):
@@ -61,6 +64,109 @@ class Facts:
                         if isinstance(x, dict):
                             stack.append((x, n, (key, i)))
         b["_nodes"].sort(key=lambda n: n["id"])
+
+    # -- inline view ---------------------------------------------------------
+    def _inline_new_helpers(self):
+        """Extract-function normalisation.  A local function that did not exist
+        when the rules were armed (rules/known_fns.json lists the def-paths of
+        that tree) is a helper somebody extracted later; rules that reason about
+        the paths through a named function must see through it.  Every call of
+        such a function gets an `inl` child: a labelled block that binds the
+        callee's parameters to the argument expressions (`ArgRef`, looked
+        through by peel) and contains a copy of the callee's body with fresh
+        ids / local ids and `return` turned into a break out of that block.
+        walk(), guards_at(), Flow, local_defs() and the slicer then treat the
+        helper's code as part of the caller.  Nothing changes for functions
+        that already existed."""
+        kp = os.path.join(os.path.dirname(os.path.abspath(__file__)), "known_fns.json")
+        if not os.path.exists(kp):
+            return
+        known = set(json.load(open(kp)))
+        new = {p: bs[0] for p, bs in self.by_path.items() if p not in known and len(bs) == 1 and "::{" not in p
+               and bs[0].get("kind") in ("Fn", "AssocFn") and not bs[0].get("impl_trait")}
+        if not new:
+            return
+        self._inl_seq = 0
+
+        def expand(b, depth, stack):
+            for n in list(b["_nodes"]) if depth == 0 else []:
+                self._try_inline(n, b, new, depth, stack)
+        for b in list(self.bodies):
+            for n in list(b["_nodes"]):
+                self._try_inline(n, b, new, 0, (b["path"],))
+
+    def _try_inline(self, n, top, new, depth, stack):
+        if n.get("k") not in ("Call", "MethodCall") or "inl" in n or depth > 3:
+            return
+        tgt = n.get("impl") if n.get("impl") in new else (n.get("fn") if n.get("fn") in new else None)
+        if tgt is None or tgt in stack:
+            return
+        H = new[tgt]
+        hb = H["body"]
+        value = hb["value"]
+        if H.get("async") and value.get("k") == "Closure":
+            value = value["body"]["value"]
+        args = ([n["recv"]] if n.get("k") == "MethodCall" else []) + list(n["args"])
+        if len(args) != len(hb["params"]):
+            return
+        self._inl_seq += 1
+        tag = "@%d" % self._inl_seq
+        base = n["id"]
+        counter = [0]
+
+        def clone(x):
+            if isinstance(x, list):
+                return [clone(y) for y in x]
+            if not isinstance(x, dict):
+                return x
+            o = {}
+            for k, v in x.items():
+                if k in CHILD_SKIP or k == "_nodes" or k == "inl":
+                    continue
+                if k in ("lid", "h", "target") and v is not None:
+                    o[k] = "%s%s" % (v, tag)
+                elif k == "id":
+                    counter[0] += 1
+                    o[k] = base + counter[0] / 100000.0
+                else:
+                    o[k] = clone(v)
+            if o.get("k") == "Ret":
+                o["k"] = "Break"
+                o["target"] = "inl" + tag
+                o["was_ret"] = True
+            return o
+        stmts = []
+        for p, a in zip(hb["params"], args):
+            counter[0] += 2
+            stmts.append({"k": "LetStmt", "id": base + (counter[0] - 1) / 100000.0, "h": "p%s" % tag, "ln": n.get("ln"), "pat": clone(p),
+                          "init": {"k": "ArgRef", "id": base + counter[0] / 100000.0, "h": "a%s" % tag, "ln": n.get("ln"), "t": a.get("t"), "ta": a.get("ta"), "_ref": a}})
+        blk = {"k": "Block", "id": base + 0.000001, "h": "inl" + tag, "ln": n.get("ln"), "t": n.get("t"), "inl_of": tgt, "stmts": stmts, "expr": clone(value)}
+        n["inl"] = blk
+        # index the new subtree under the caller
+        st = [(blk, n, "inl")]
+        added = []
+        while st:
+            x, parent, role = st.pop()
+            x["_p"] = parent
+            x["_role"] = role
+            x["_top"] = top
+            if "k" in x:
+                self.nodes[x["id"]] = x
+                added.append(x)
+            for key, v in list(x.items()):
+                if key in CHILD_SKIP or key == "_ref":
+                    continue
+                if isinstance(v, dict):
+                    st.append((v, x, key))
+                elif isinstance(v, list):
+                    for i, y in enumerate(v):
+                        if isinstance(y, dict):
+                            st.append((y, x, (key, i)))
+        top["_nodes"].extend(added)
+        top["_nodes"].sort(key=lambda m: m["id"])
+        self.inlined.append((top["path"], tgt, n.get("ln")))
+        for m in added:
+            self._try_inline(m, top, new, depth + 1, stack + (tgt,))
 
     # -- lookups -------------------------------------------------------------
     def ty(self, n, adjusted=False):
@@ -243,6 +349,8 @@ def peel(n):
             n = n["expr"]
         elif k == "Use":
             n = n["e"]
+        elif k == "ArgRef":
+            n = n["_ref"]
         else:
             return n
 
@@ -710,6 +818,93 @@ def _stmt_guards(F, s, out):
                 split_cond(i["cond"], True, out)
 
 
+def eval_cond(n, atom):
+    """three-valued evaluation of a boolean expression tree: `atom(node)` gives
+    True / False for the leaves it knows and None otherwise"""
+    n = peel(n)
+    k = n.get("k")
+    if k == "Unary" and n.get("op") == "!":
+        v = eval_cond(n["e"], atom)
+        return None if v is None else (not v)
+    if k == "Binary" and n.get("op") in ("&&", "||"):
+        a = eval_cond(n["l"], atom)
+        b = eval_cond(n["r"], atom)
+        if n["op"] == "&&":
+            if a is False or b is False:
+                return False
+            return True if (a is True and b is True) else None
+        if a is True or b is True:
+            return True
+        return False if (a is False and b is False) else None
+    return atom(n)
+
+
+def guards_admit(guards, atom):
+    """can all `cond` guards hold under the leaf valuation `atom`? (guards whose
+    value is unknown under the valuation are ignored)"""
+    for g in guards:
+        if g.kind != "cond":
+            continue
+        v = eval_cond(g.node, atom)
+        if v is not None and v != g.pol:
+            return False
+    return True
+
+
+def guard_table(guards, atoms):
+    """{valuation tuple -> reachable?} over the named leaf predicates
+    atoms = [(name, pred(node) -> bool)]"""
+    import itertools
+    out = {}
+    for vals in itertools.product((False, True), repeat=len(atoms)):
+        def atom(n, vals=vals):
+            for (nm, pred), v in zip(atoms, vals):
+                if pred(n):
+                    return v
+            return None
+        out[vals] = guards_admit(guards, atom)
+    return out
+
+
+def matched_regions(expr, variant_prefix="std::option::Option::Some("):
+    """Where is the value of `expr` destructured with a pattern starting with
+    `variant_prefix`, and which code runs when it matched?  Handles `match`,
+    `if let`, `while let`, `let .. else`.  Returns [(binding lids, [region roots])]."""
+    out = []
+    for a in k_ancestors(expr):
+        k = a.get("k")
+        if k == "Match" and is_within(expr, a["scrut"]):
+            for arm in a["arms"]:
+                if pat_text(arm["pat"]).startswith(variant_prefix):
+                    out.append(({b["lid"] for b in pat_bindings(arm["pat"])}, [arm["body"]]))
+            return out
+        if k == "Let" and is_within(expr, a["init"]):
+            if pat_text(a["pat"]).startswith(variant_prefix):
+                # the Let is (a conjunct of) an If / While condition
+                o = a
+                while o.get("_p") is not None and o["_p"].get("k") == "Binary":
+                    o = o["_p"]
+                owner = o.get("_p") or {}
+                if owner.get("k") == "If":
+                    out.append(({b["lid"] for b in pat_bindings(a["pat"])}, [owner["then"]]))
+                elif owner.get("k") == "While":
+                    out.append(({b["lid"] for b in pat_bindings(a["pat"])}, [owner["body"]]))
+            return out
+        if k == "LetStmt" and "init" in a and is_within(expr, a["init"]):
+            if "else" in a and pat_text(a["pat"]).startswith(variant_prefix):
+                blk = a["_p"]
+                rest = []
+                if blk.get("k") == "Block":
+                    i = [j for j, st_ in enumerate(blk["stmts"]) if st_ is a]
+                    if i:
+                        rest = blk["stmts"][i[0] + 1:] + ([blk["expr"]] if "expr" in blk else [])
+                out.append(({b["lid"] for b in pat_bindings(a["pat"])}, rest))
+            return out
+        if k in ("Block", "Closure") and k == "Closure":
+            return out
+    return out
+
+
 def has_guard(guards, pred):
     return any(pred(g) for g in guards)
 
@@ -801,10 +996,20 @@ class Flow:
                 return self.ev(n["value"], st)
             return st
         if k == "Block":
+            if n.get("inl_of"):
+                h = n["h"]
+                self.loop_breaks[h] = None
+                st = self.seq(n["stmts"], st)
+                if "expr" in n:
+                    st = self.ev(n["expr"], st)
+                st = self.join(st, self.loop_breaks.pop(h))
+                return self.mark(n, st)
             st = self.seq(n["stmts"], st)
             if "expr" in n:
                 st = self.ev(n["expr"], st)
             return self.mark(n, st)
+        if k == "ArgRef":
+            return st
         if k == "Semi":
             return self.ev(n["e"], st)
         if k == "LetStmt":
@@ -898,6 +1103,8 @@ class Flow:
             if "f" in n:
                 st = self.ev(n["f"], st)
             st = self.seq(n["args"], st)
+            if "inl" in n:
+                st = self.ev(n["inl"], st)
             st = self.mark(n, st)
             if st is not None and F.ty(n) == "!":
                 return None
@@ -905,6 +1112,8 @@ class Flow:
         if k == "MethodCall":
             st = self.ev(n["recv"], st)
             st = self.seq(n["args"], st)
+            if "inl" in n:
+                st = self.ev(n["inl"], st)
             st = self.mark(n, st)
             if st is not None and F.ty(n) == "!":
                 return None
@@ -1542,6 +1751,16 @@ def _tail_values(F, e, out):
             _tail_values(F, a["body"], out)
         return
     if k in ("Ret", "Break", "Continue"):
+        return
+    if k in ("Call", "MethodCall") and "inl" in e:
+        # a helper extracted after the rules were armed: its values are the call's values
+        blk = e["inl"]
+        _tail_values(F, blk, out)
+        for n in walk(blk, into_closures=False):
+            if n["k"] == "Break" and n.get("was_ret") and n.get("target") == blk["h"] and "e" in n:
+                _tail_values(F, n["e"], out)
+            elif n["k"] == "Try" and n["_top"] is e["_top"] and not any(a.get("k") == "Closure" for a in k_ancestors(n) if is_within(a, blk)):
+                out.append({"k": "TryExit", "id": -1, "e": n["e"], "_p": n, "_top": n["_top"], "ln": n.get("ln")})
         return
     out.append(e)
 
